@@ -857,6 +857,40 @@ func rePutOracle(c *RePutCase) error {
 			c2.Put(uint64(100+i), mk(ShArray, i))
 		}
 		c2.Put(7, same)
+		if c.Others >= 4 && same.GetSizeInBytes()*uint64(c.Others+3)+uint64(c.Others+3)*slack <= c.Cap {
+			// no probing inside a run (a hit is a use): the number of fillers
+			// after which the OLDEST entry is evicted is found on fresh caches
+			// (a run is a pure function of that number); in the run with exactly
+			// that many fillers one or two of the oldest entries are gone, and
+			// key 7, the most recently stored of all entries that are not
+			// fillers, has to be there
+			build := func(fillers int) *updog.LRUCache {
+				c3 := updog.NewLRUCache(c.Cap)
+				c3.Put(7, same)
+				for i := 0; i < c.Others; i++ {
+					c3.Put(uint64(100+i), mk(ShArray, i))
+				}
+				c3.Put(7, same)
+				for i := 0; i < fillers; i++ {
+					c3.Put(uint64(1<<40+i), mk(ShArray, 20000+i))
+				}
+				return c3
+			}
+			oldestGone := func(fillers int) bool { _, ok := build(fillers).Get(100); return !ok }
+			lo, hi := 0, 4096
+			if !oldestGone(0) && oldestGone(hi) {
+				for hi-lo > 1 {
+					if mid := (lo + hi) / 2; oldestGone(mid) {
+						hi = mid
+					} else {
+						lo = mid
+					}
+				}
+				if _, ok := build(hi).Get(7); !ok {
+					return fmt.Errorf("key 7 was stored again (same object, same size) AFTER the %d other entries; %d fillers later the oldest of those entries is evicted for the first time, and key 7 is gone too although it was the most recently stored of the earlier entries: storing the same object under its key did not count as use", c.Others, hi)
+				}
+			}
+		}
 		if c.Others > 0 && same.GetSizeInBytes()*uint64(c.Others+3)+uint64(c.Others+3)*slack <= c.Cap {
 			for i := 0; i < int(c.Cap/60)+50 && i < 20000; i++ {
 				c2.Put(uint64(1<<40+i), mk(ShArray, 20000+i))
